@@ -96,6 +96,23 @@ pub enum Op {
     Replace { target: Target, same: bool, qty: u64, buy: bool },
     Read(ReadKind),
     Rebuild(RebuildPath),
+    /// (metamorphic twin of C07) add an extra order under a reserved id ...
+    GhostAdd { spec: OrderSpec },
+    /// ... and take it out again right away: 0 cancel, 1 price move, 2 price+quantity to another
+    /// price, 3 replace at another price. The pair must leave no trace in any other result.
+    GhostRemove { via: u8 },
+}
+
+/// the reserved id of the ghost order (never part of a generated id pool)
+pub fn ghost_id() -> OrderId {
+    OrderId::from_u64(0x6805_7000_0000_0001)
+}
+
+#[derive(Clone, Copy, Debug, PartialEq, Eq, Hash, Serialize, Deserialize)]
+pub struct Ghost {
+    pub at: u16,
+    pub spec: OrderSpec,
+    pub via: u8,
 }
 
 #[derive(Clone, Copy, Debug, PartialEq, Eq, Hash, Serialize, Deserialize)]
@@ -115,6 +132,9 @@ pub struct History {
     pub ts_mode: TsMode,
     pub pool: Vec<IdSpec>,
     pub ops: Vec<Op>,
+    /// optional ghost insertion for C07's "add + remove leaves no trace" twin run
+    #[serde(default)]
+    pub ghost: Option<Ghost>,
 }
 
 // ------------------------------------------------------------------------------------
@@ -205,7 +225,7 @@ fn match_size(profile: Profile) -> BoxedStrategy<MatchSize> {
     .boxed()
 }
 
-fn op(cfg: HistCfg, profile: Profile) -> BoxedStrategy<Op> {
+pub fn op_strategy(cfg: HistCfg, profile: Profile) -> BoxedStrategy<Op> {
     let ocfg = OrderGenCfg {
         profile,
         zero_display: cfg.zeros,
@@ -282,13 +302,13 @@ pub fn history(cfg: HistCfg) -> BoxedStrategy<History> {
         (
             price,
             gen::id_pool(6, 12),
-            proptest::collection::vec(op(cfg, profile), 0..=cfg.max_len),
+            proptest::collection::vec(op_strategy(cfg, profile), 0..=cfg.max_len),
         )
             .prop_map(move |(price, pool, mut ops)| {
                 if cfg.final_drain {
                     ops.push(Op::Match { size: MatchSize::AllPlus1 });
                 }
-                History { zeros: cfg.zeros, price, profile, ts_mode, pool, ops }
+                History { zeros: cfg.zeros, price, profile, ts_mode, pool, ops, ghost: None }
             })
     })
     .boxed()
@@ -342,6 +362,7 @@ pub enum OpResult {
     Updated(Result<Option<Order>, String>),
     Read,
     Rebuilt(bool),
+    Ghost,
     Aborted,
 }
 
@@ -397,7 +418,45 @@ pub struct Entry {
     pub tranche_unsynced: bool,
 }
 
+/// A fully resolved API call (ids and sizes concrete), so that the same call can be applied
+/// to another level.
+#[derive(Clone, Debug)]
+pub enum Concrete {
+    Add(Order),
+    Match(u64, OrderId),
+    Update(OrderUpdate),
+}
+
+/// Apply a concrete call to a level without any model; returns the comparable outcome.
+pub fn apply_concrete(level: &PriceLevel, gen: &UuidGenerator, c: &Concrete, budget: u64) -> OpResult {
+    match c {
+        Concrete::Add(o) => {
+            let o = *o;
+            match catch(|| level.add_order(o)) {
+                Ok(_) => OpResult::Added(o.id()),
+                Err(_) => OpResult::Aborted,
+            }
+        }
+        Concrete::Match(s, taker) => match with_step_budget(budget, || level.match_order(*s, *taker, gen)) {
+            Ok((res, _)) => OpResult::Matched {
+                requested: *s,
+                fills: res.transactions.as_vec().iter().map(|t| (t.maker_order_id, t.quantity)).collect(),
+                remaining: res.remaining_quantity,
+                complete: res.is_complete,
+                filled: res.filled_order_ids.clone(),
+            },
+            Err(_) => OpResult::Aborted,
+        },
+        Concrete::Update(u) => match catch(|| level.update_order(*u)) {
+            Ok(r) => OpResult::Updated(r.map(|o| o.map(|a| *a)).map_err(|e| e.to_string())),
+            Err(_) => OpResult::Aborted,
+        },
+    }
+}
+
 pub struct Interp {
+    /// concrete calls issued so far (for differential runs on other levels)
+    pub concrete: Vec<Concrete>,
     /// known findings that are listed in /verif/known_findings.json (excused, counted)
     pub excuse_kf_c04_1: bool,
     pub excuse_kf_c04_2: bool,
@@ -450,6 +509,7 @@ fn listing_of(level: &PriceLevel) -> Vec<Order> {
 impl Interp {
     pub fn new(h: &History) -> Self {
         Interp {
+            concrete: Vec::new(),
             excuse_kf_c04_1: true,
             excuse_kf_c04_2: true,
             zeros: h.zeros,
@@ -801,6 +861,30 @@ impl Interp {
                 self.do_read(*k)
             }
             Op::Rebuild(p) => self.do_rebuild(*p),
+            Op::GhostAdd { spec } => {
+                let mut spec = *spec;
+                if self.ts_mode == TsMode::Increasing {
+                    spec.ts = 999;
+                }
+                if self.find(ghost_id()).is_none() && !self.pool.contains(&ghost_id()) {
+                    self.add_with_id(ghost_id(), spec);
+                }
+                OpResult::Ghost
+            }
+            Op::GhostRemove { via } => {
+                let id = ghost_id();
+                if self.find(id).is_some() {
+                    let np = self.other_price();
+                    let u = match via % 4 {
+                        0 => OrderUpdate::Cancel { order_id: id },
+                        1 => OrderUpdate::UpdatePrice { order_id: id, new_price: np },
+                        2 => OrderUpdate::UpdatePriceAndQuantity { order_id: id, new_price: np, new_quantity: 3 },
+                        _ => OrderUpdate::Replace { order_id: id, price: np, quantity: 3, side: Side::Buy },
+                    };
+                    let _ = self.do_remove(u, id);
+                }
+                OpResult::Ghost
+            }
         };
         if !self.dead {
             let after_match = matches!(op, Op::Match { .. });
@@ -843,7 +927,12 @@ impl Interp {
                 return OpResult::Skipped;
             }
         };
-        let mut spec = *spec;
+        self.add_with_id(id, *spec)
+    }
+
+    fn add_with_id(&mut self, id: OrderId, spec: OrderSpec) -> OpResult {
+        let mut spec = spec;
+        let ghost = id == ghost_id();
         // sums must fit in 64 bits (quantifier): trim against the headroom
         let room = self.headroom();
         if spec.display > room {
@@ -856,12 +945,13 @@ impl Interp {
             self.facts.skipped_adds += 1;
             return OpResult::Skipped;
         }
-        if self.ts_mode == TsMode::Increasing {
+        if self.ts_mode == TsMode::Increasing && !ghost {
             self.add_counter += 1;
             spec.ts = 1_000 + self.add_counter;
         }
         let order = spec.build(id, self.price);
         self.note(|| format!("add {}", brief(&order)));
+        self.concrete.push(Concrete::Add(order));
         if let Err(m) = catch(|| self.level.add_order(order)) {
             self.violate(Oracle::Panic, format!("add_order panicked: {m}"));
             self.dead = true;
@@ -957,6 +1047,7 @@ impl Interp {
         let taker = OrderId::from_u64(0xFFFF_0000_0000_0000 | self.taker_counter);
         let budget = 4000 + 40 * self.pushes + 400 * (n + rounds);
         self.note(|| format!("match {} (from {:?})", s, size));
+        self.concrete.push(Concrete::Match(s, taker));
         let res: MatchResult =
             match with_step_budget(budget, || self.level.match_order(s, taker, &self.gen)) {
                 Ok((r, _steps)) => r,
@@ -1208,6 +1299,7 @@ impl Interp {
     }
 
     fn call_update(&mut self, u: OrderUpdate) -> Option<Result<Option<Arc<Order>>, String>> {
+        self.concrete.push(Concrete::Update(u));
         match catch(|| self.level.update_order(u)) {
             Ok(r) => Some(r.map_err(|e| e.to_string())),
             Err(m) => {
